@@ -56,6 +56,7 @@ def run_dataset(job):
             a += s
         out["stats_present"] = sum(1 for rg in pf.row_groups for c in rg.columns if c.meta_data.statistics is not None
                                    and (c.meta_data.statistics.max is not None or c.meta_data.statistics.max_value is not None))
+        pf_shared = ParquetFile(path)     # one handle reused by every program: the memoised converted_min/max must stay right
         for prog in progs:
             o = {}
             filters = FL.prog_to_filters(prog)
@@ -72,6 +73,7 @@ def run_dataset(job):
                     it += [int(x) for x in d["rid"].tolist()]
                 o["iter"] = it
                 o["idx"] = [int(i) for i in api.filter_row_groups(pf2, filters, as_idx=True)]
+                o["idx_shared"] = [int(i) for i in api.filter_row_groups(pf_shared, filters, as_idx=True)]
             except Exception as e:      # noqa
                 o["raised"] = type(e).__name__
                 o["raised_msg"] = str(e)[:200]
@@ -313,6 +315,9 @@ def run(ctx):
                 elif not o["whole_groups"]:
                     ctx.fail(classify(spec, prog, "not-whole-groups"), case,
                              "filtered read %s is not the in-order concatenation of whole row groups (sizes %s)" % (o["got"], res["sizes"]))
+                elif o["idx_shared"] != o["idx"]:
+                    ctx.fail(classify(spec, prog, "handle-reuse-differs"), case,
+                             "a handle already used for other programs keeps row groups %s, a fresh handle %s (memoised converted bounds)" % (o["idx_shared"], o["idx"]))
                 elif o["count"] != len(o["got"]) or o["iter"] != o["got"]:
                     ctx.fail(classify(spec, prog, "count-or-iter-differs"), case,
                              "count(filters)=%s, iter_row_groups -> %s, to_pandas -> %s" % (o["count"], o["iter"], o["got"]))
@@ -374,7 +379,7 @@ def replay(rep):
         return 1
     print("rows (rid) that satisfy the program on the full read:", o["must"])
     print("filtered read returned rids:", o["got"], " kept row groups:", o["idx"])
-    badc = o["count"] != len(o["got"]) or o["iter"] != o["got"]
+    badc = o["count"] != len(o["got"]) or o["iter"] != o["got"] or o["idx_shared"] != o["idx"]
     if o["lost"] or not o["whole_groups"] or badc:
         print("PROPERTY FAILS: lost rows %s; whole groups in order: %s; count %s / iter %s" % (o["lost"], o["whole_groups"], o["count"], o["iter"]))
         return 1
